@@ -12,13 +12,27 @@ rejections; short reads), catch the exception, optionally switch the endianness,
 family (fixed ints, aliases, arbitrary-width ints, floats, char, wchar, LEB128, plus well-formed arrays and the structure)
 against the reference encodings, on the same instance, on an older instance and on a fresh one, through dumps(), instance
 dumps() and write() to a stream.  A violation of this family carries a self-contained script that `replay` re-executes.
+
+Section 7, the 'wide text' family (harness/v5_c05.py): wchar is UTF-16, and UTF-16 is a code of unit STRINGS - a character outside
+the Basic Multilingual Plane is a surrogate pair.  Seeded trials draw texts with astral characters (U+10000, U+1F600, U+10FFFF,
+random planes), alone and mixed with BMP characters, units that contain zero bytes (inside a unit, inside a pair, straddling two
+units), combining sequences, U+FFFF / U+FFFE / the BOM and NUL as ordinary data, and put them through EVERY wchar form: a single
+wchar, wchar[n], wchar[expression over an earlier member / constants], wchar[] (null-terminated: the terminator is the 16-bit
+zero unit), wchar[EOF]; spelled wchar / wchar_t / WCHAR; stand-alone (cs.wchar[None], cs.WCHAR[Expression(cs, "EOF")], typedefs)
+and as members of generated structures (several wide members, integers in between, a nested structure / an array of nested
+structures; compiled or interpreted; aligned or packed); under '<', '>', '!', also with the endianness switched after loading.
+Decode (from bytes, from a stream at an odd or even offset with bytes behind, reads, read(bytearray/memoryview)) must give exactly
+the UTF-16 decoding of the consumed bytes and consume exactly the encoding; encode (dumps, instance dumps, write, dumps of the
+parsed value) must give exactly the reference bytes; input cut inside a member, ill-formed UTF-16 (a lone surrogate half in a
+single wchar, a pair cut by the count, low before high) and strings with unpaired surrogates must be refused.  Violations carry a
+self-contained script as well.
 """
 from __future__ import annotations
 
 import io
 import struct
 
-from .. import common, impl, v4_c05
+from .. import common, impl, v4_c05, v5_c05
 from ..common import A, Case, Result, mkrng, parse_sexp, run_driver, sx
 
 INTS = {  # canonical name -> (size, signed)
@@ -121,7 +135,14 @@ def run(env) -> Result:
                 "the value was produced (arrays with a later element out of range, LEB128 arrays with a negative element, generated structures "
                 "- compiled/interpreted, aligned/packed - with an out-of-range later field, bit-field or nested member), exception caught, "
                 "then the encodes of every scalar family, of arrays and of the structure on the same / an older / a fresh instance via dumps, "
-                "instance.dumps and write must be exactly the reference encoding. Each case: independent oracle vs real library vs Lean model. "
+                "instance.dumps and write must be exactly the reference encoding; wide-text trials: texts with characters outside the BMP "
+                "(surrogate pairs; alone / mixed with BMP characters; units with zero bytes; combining sequences; U+FFFF, U+FFFE, BOM, NUL as "
+                "data) through every wchar form - single wchar, wchar[n], wchar[expression], wchar[] (terminator = the 16-bit zero unit), "
+                "wchar[EOF]; wchar / wchar_t / WCHAR; stand-alone types and members of generated structures (nested, arrays of structures, "
+                "compiled/interpreted, aligned/packed); {<,>,!} and endianness switched after loading - decode (bytes, stream at an offset "
+                "with bytes behind, reads, read) must equal the UTF-16 decoding of exactly the consumed bytes, encode (dumps, instance.dumps, "
+                "write, dumps of the parsed value) its inverse; cut input, ill-formed UTF-16 (lone surrogate halves) and strings with "
+                "unpaired surrogates must be refused. Each case: independent oracle vs real library vs Lean model. "
                 "distinct = (type, endian, value/bytes); non-trivial = multi-byte or non-zero")
     R = Runner(env, res)
     rnd = mkrng(env["seed"], "c05")
@@ -342,6 +363,9 @@ def run(env) -> Result:
     # ---- 6. after a refused encode the next encodes are the standard ones (same, older and fresh instance)
     v4_c05.run(R, mkrng(env["seed"], "c05-after-fault"), tier)
 
+    # ---- 7. wide text: characters outside the BMP (surrogate pairs) through every wchar form
+    v5_c05.run(R, mkrng(env["seed"], "c05-wide"), tier)
+
     # ---- model correspondence
     answers = run_driver(R.lines) if env["driver_ok"] else [None] * len(R.lines)
     for meta, ans in zip(R.metas, answers):
@@ -372,7 +396,7 @@ def run(env) -> Result:
 
 def replay(body) -> int:
     print("replay:", body.get("what"), body.get("case"))
-    rc = v4_c05.replay_script(body)  # the after-fault cases carry the script of their trial
+    rc = v4_c05.replay_script(body)  # the after-fault and the wide-text cases carry the script of their trial
     if rc is not None:
         print("replay: the recorded script", "still fails" if rc else "no longer fails (the run is repeated with the recorded seed)")
         return rc
